@@ -56,6 +56,21 @@ Theorem C07_random_start : forall draw, 0 <= draw < max_initial_random ->
 Proof. intros. split; [apply random_first_value; assumption|apply new_random_sane]. Qed.
 Print Assumptions C07_random_start.
 
+(* the sequencer shared with a packetizer: a frame of n packets (and a run of n padding packets) draws
+   n successive numbers, so a history with such batches is the plain history with the batches spelled
+   out - every theorem above applies to it: no gap, no duplicate, rollovers counted wherever a frame
+   starts or ends *)
+Theorem C07_batches_are_steps : forall l s,
+  fst (seq_brun s l) = fst (seq_run s (flatten_bops l)) /\
+  concat (snd (seq_brun s l)) = snd (seq_run s (flatten_bops l)).
+Proof. exact batches_are_steps. Qed.
+Print Assumptions C07_batches_are_steps.
+
+Example C07_frame_starting_at_zero :
+  snd (seq_brun (new_fixed 65535) [BOne SNext; BOne SRoc; BTake 4; BOne SRoc; BOne SNext])
+  = [[65535]; [0]; [0; 1; 2; 3]; [1]; [4]].
+Proof. vm_compute. reflexivity. Qed.
+
 Example C07_nonvacuous :
   snd (seq_run (new_fixed 65534) [SNext; SRoc; SNext; SNext; SRoc; SNext]) = [65534; 0; 65535; 0; 1; 1].
 Proof. vm_compute. reflexivity. Qed.
